@@ -22,6 +22,9 @@ struct Case {
     fg: MColor,
     bg: MColor,
     background: bool,
+    /// Term::min_width_px (None = the default); widens the canvas, nothing else
+    #[serde(default)]
+    min_width: Option<usize>,
 }
 
 fn rgb_of(c: MColor, pal: &[Rgb; 16]) -> Rgb {
@@ -133,12 +136,12 @@ fn sanitize(s: &str) -> String {
 
 fn render(case: &Case) -> String {
     let pal = if case.win10 { anstyle_svg::WIN10_CONSOLE } else { anstyle_svg::VGA };
-    Term::new()
-        .palette(pal)
-        .fg_color(sgr::to_color(case.fg))
-        .bg_color(sgr::to_color(case.bg))
-        .background(case.background)
-        .render_svg(&case.text)
+    let term = Term::new().palette(pal).fg_color(sgr::to_color(case.fg)).bg_color(sgr::to_color(case.bg)).background(case.background);
+    let term = match case.min_width {
+        Some(w) => term.min_width_px(w),
+        None => term,
+    };
+    term.render_svg(&case.text)
 }
 
 fn check_doc(case: &Case, doc: &str) -> Result<bool, String> {
@@ -302,11 +305,12 @@ fn arb_case() -> impl Strategy<Value = (Case, u64)> {
         prop_oneof![2 => Just(MColor::Ansi(7)), 1 => arb_color()],
         prop_oneof![2 => Just(MColor::Ansi(0)), 1 => arb_color()],
         prop::bool::weighted(0.7),
+        prop_oneof![3 => Just(None), 1 => prop::sample::select(vec![0usize, 1, 719, 100_000]).prop_map(Some)],
     )
-        .prop_map(|((items, removed), win10, fg, bg, background)| {
+        .prop_map(|((items, removed), win10, fg, bg, background, min_width)| {
             let bytes = gen::render(&items);
             let text = sanitize(&String::from_utf8_lossy(&bytes));
-            (Case { text, win10, fg, bg, background }, removed)
+            (Case { text, win10, fg, bg, background, min_width }, removed)
         })
 }
 
@@ -353,9 +357,18 @@ fn run(args: &Args, rep: &mut Report) {
         "", "\n", "\n\n", "a", "a\n", "a\r\n", "a\r\nb", "\r\n", "a\rb", "a\r", "\x1b[1ma\r\x1b[0m\nb", "a\r\x1b[1m\n\x1b[31mb", "&<>\"'", "]]>", "\x1b[7mx\x1b[0my",
         "\x1b[41m \x1b[0m\n\x1b[7;32m&\x1b[m", "\x1b[38;5;1;48;2;3;4;5;58;5;6;4:3mz", "\t|\t", "漢字\x1b[44m😀\x1b[0m\u{301}", "\x1b[1m\x1b[0m", "\x1b[41m\n\x1b[0m", "a\x1b[1mb\r\x1b[0m\nc", "x\n\x1b[31my\r\x1b[39m\nz", "\r\x1b[1m\r\x1b[0m\n", "a\r\x1b[1m\x1b[3m\n",
     ];
+    let big: Vec<String> = vec![
+        "a\n".repeat(255),
+        "\n".repeat(256),
+        "\x1b[31mr\x1b[0m\n".repeat(257),
+        "x\r\n".repeat(1000) + "last",
+        "\x1b[1m".to_owned() + &"w".repeat(70_000) + "\x1b[0m\nend",
+        (0..300).map(|i| format!("\x1b[38;5;{}m{}\x1b[0m{}", i % 256, i, if i % 7 == 0 { "\n" } else { " " })).collect(),
+    ];
+    let fixed: Vec<&str> = fixed.iter().copied().chain(big.iter().map(|s| s.as_str())).collect();
     for t in fixed {
         for (win10, background) in [(false, true), (true, false)] {
-            let case = Case { text: t.to_owned(), win10, fg: MColor::Ansi(7), bg: MColor::Idx(17), background };
+            let case = Case { text: t.to_owned(), win10, fg: MColor::Ansi(7), bg: MColor::Idx(17), background, min_width: None };
             acc.eval();
             acc.nontrivial_distinct();
             let r = rt::guarded(|| {
@@ -370,7 +383,7 @@ fn run(args: &Args, rep: &mut Report) {
         }
     }
     acc.samples.push(json!({"text": "a\\r\\x1b[1m\\n\\x1b[31mb"}));
-    rep.add("corner-cases", true, "25 hand-picked texts (empty, CR/LF placements, XML specials, invert, all colour slots) x 2 configurations", vec![acc]);
+    rep.add("corner-cases", true, "25 hand-picked texts (empty, CR/LF placements, XML specials, invert, all colour slots) and 6 large ones (255 / 256 / 257 / 1001 lines, a 70 000-character line, 300 differently coloured spans) x 2 configurations", vec![acc]);
 
     // colour-class collisions: many RGB colours in one document whose components are chosen so
     // that unpadded / concatenated spellings of the class name would coincide
@@ -397,7 +410,7 @@ fn run(args: &Args, rep: &mut Report) {
                 }
             }
             for background in [true, false] {
-                let case = Case { text: text.clone(), win10: false, fg: MColor::Rgb(1, 0x10, 0), bg: MColor::Rgb(0x11, 0, 0), background };
+                let case = Case { text: text.clone(), win10: false, fg: MColor::Rgb(1, 0x10, 0), bg: MColor::Rgb(0x11, 0, 0), background, min_width: Some(0) };
                 acc.eval();
                 acc.nontrivial_distinct();
                 let r = rt::guarded(|| {
